@@ -15,7 +15,7 @@ CHECKS = {
                  'watched globals dict; result, log sequence, global write history and final globals must equal an independent '
                  'big-step interpreter of the source AST. All nesting chains of the 26 construct variants to depth 2 (quick) / 3 '
                  '(thorough) are enumerated under two condition vectors at global and function scope, plus thousands of seeded '
-                 'random programs with initial globals of all nine types. Held-on-observed, not a proof.'),
+                 'random programs with initial globals of all nine types, also with keyword-prefixed identifiers, parameters shadowing globals, expression-only statements, respelled layouts (vf/layout.py) and debug mode. Held-on-observed, not a proof.'),
         'note': 'Trusts: the reference interpreter (vf/refast.py, vf/refeval.py); real library functions are used for library calls inside reference runs; safe expression subset; finding F7 (while+continue) and F14 (bool arithmetic) are classified by exact variant re-derivation.',
         'design_ref': '5/C01',
     },
@@ -29,7 +29,7 @@ CHECKS.update({
                  'accept/reject must agree (only BareScriptParserError may escape). All 14^k operator chains for k<=3 (quick) / k<=4 '
                  '(thorough) with per-operand variants are enumerated; random trees to depth 8 are printed with minimal/redundant '
                  'parentheses and random whitespace; token soup and single-token mutants test rejection.'),
-        'note': 'Trusts vf/refexpr.py; vocabulary avoids lexical quirks outside the property (1-character callees, +-signed literals, unsigned exponents, trailing blanks in bracket names).',
+        'note': 'Trusts vf/refexpr.py; vocabulary avoids lexical quirks outside the property (1-character callees, unsigned exponents, trailing blanks in bracket names); plus-signed literals are part of the reference grammar.',
         'design_ref': '5/C02',
     },
     'C03': {
@@ -48,8 +48,8 @@ CHECKS.update({
         'text': ('Generated programs with 1-4 functions whose parameter names collide with globals, library names and built-ins are called '
                  'directly, via variables, systemPartial and library callbacks under host configurations that shadow library names; '
                  'the log, the global write history (assignments in functions must not appear), final globals and results must equal '
-                 'the reference; host bindings must be identical after the run; a global that only exists as a parameter name must '
-                 'never be read.'),
+                 'the reference; host bindings (also library names bound to null) must be identical after the run; a global that only exists as a parameter name must '
+                 'never be read. Run histories with own globals / no globals / no options must leave the library dictionaries untouched and leak nothing into later runs; include statements inside function bodies run in global scope (RefVM).'),
         'note': 'Trusts RefAST; arrayLength/arrayGet are never redefined (the for lowering calls them by name); built-in shadowing in expression mode is exercised in C03.',
         'design_ref': '5/C04',
     },
